@@ -448,6 +448,8 @@ class VarField(RawField):
         el1 = struct.unpack(self.order + self.typename, el1)[0]
         res = [el1]
         pos = offset + sz1
+        self._sz = sz1
+        self.count = 1
         while not self.terminate(el1,field=self):
             el1 = data[pos : pos + sz1]
             el1 = struct.unpack(self.order + self.typename, el1)[0]
@@ -465,6 +467,9 @@ class VarField(RawField):
         tn = self.typename
         if psize and tn=='P':
             tn = {4:'I',8:'Q',32:'I',64:'Q'}.get(psize,'P')
+        if isinstance(value,bytes):
+            # 's' and 'c' elements are unpacked as one bytes string
+            return value
         res = [struct.pack(self.order + tn, v) for v in value]
         return b"".join(res)
 
